@@ -6,8 +6,8 @@
    Programs are input-free (the debugger shares stdin with the program). *)
 From Coq Require Import List NArith Bool.
 Import ListNotations.
-From HV Require Import Model.Parse Model.Exec Model.Repl Model.Debug Proofs.AppSpec Proofs.AppAll Proofs.ExtraSpec.
-From HV Require Proofs.ExtraProofs.
+From HV Require Import Model.Parse Model.Exec Model.Repl Model.Debug Proofs.AppSpec Proofs.AppAll Proofs.ExtraSpec Proofs.App3Spec.
+From HV Require Proofs.ExtraProofs Proofs.App3Proofs.
 Open Scope N_scope.
 
 Theorem C11_invariant_initially : forall code, code <> [] -> dinv code dinit.
@@ -71,6 +71,36 @@ Theorem C11_output_accounting_at_end : forall code lines d evs e,
   flush_err evs = pend_err d ++ (if executes code lines d then snd (step_text code d) else []).
 Proof. exact ExtraProofs.debug_output_end. Qed.
 Print Assumptions C11_output_accounting_at_end.
+
+(* `run` over several iterations: in running mode with b steps on the history, if the next k commands of the run carry no
+   breakpoint and the one after them does, then k+1 iterations later the debugger has stopped exactly there — history of b+k
+   steps whose newest snapshot is the interpreter's state after b+k commands, breakpoints and unread command lines untouched —
+   and the text shown is what was pending followed by everything those k commands wrote, each character once, in order,
+   nothing left pending *)
+Theorem C11_run_reaches_first_breakpoint : forall code lines d b k s pc,
+  dinv code d -> running d = true -> length (hist d) = S b ->
+  (forall j, (j < k)%nat -> exists sj pcj, nsteps (b + j) code = Some (sj, pcj) /\
+                                          pcj < N.of_nat (length code) /\ mem_N pcj (brk d) = false) ->
+  nsteps (b + k) code = Some (s, pc) -> pc < N.of_nat (length code) -> mem_N pc (brk d) = true ->
+  exists evs d', diter (S k) code lines d = Some (evs, lines, d') /\
+    running d' = false /\ brk d' = brk d /\ length (hist d') = S (b + k) /\
+    (exists s', hd_error (hist d') = Some (s', pc) /\ core s' = s) /\
+    flush_out evs = pend_out d ++ fst (texts_from code b k) /\
+    flush_err evs = pend_err d ++ snd (texts_from code b k) /\
+    pend_out d' = [] /\ pend_err d' = [].
+Proof. exact App3Proofs.run_to_breakpoint. Qed.
+Print Assumptions C11_run_reaches_first_breakpoint.
+(* ... and when no command of the rest of the run carries a breakpoint, the session ends (finished) having shown everything *)
+Theorem C11_run_reaches_end : forall code lines d b k s pc fuel,
+  dinv code d -> running d = true -> length (hist d) = S b ->
+  (forall j, (j < k)%nat -> exists sj pcj, nsteps (b + j) code = Some (sj, pcj) /\
+                                          pcj < N.of_nat (length code) /\ mem_N pcj (brk d) = false) ->
+  nsteps (b + k) code = Some (s, pc) -> N.of_nat (length code) <= pc -> (S k < fuel)%nat ->
+  exists evs, dloop true true fuel code lines d = (evs, DFinished) /\
+    flush_out evs = pend_out d ++ fst (texts_from code b k) /\
+    flush_err evs = pend_err d ++ snd (texts_from code b k).
+Proof. exact App3Proofs.run_to_end. Qed.
+Print Assumptions C11_run_reaches_end.
 
 (* the pinned tree (before fix ac65e29) could: `break <number of commands>` then `break` *)
 Theorem C11_pinned_panics : exists fuel code lines, code <> [] /\ snd (debug_run false true fuel code lines) = DPanic.
